@@ -60,7 +60,7 @@ pub fn pool() -> Vec<Vec<PathControlPoint>> {
     ]
 }
 
-const LENS: [Option<f64>; 3] = [None, Some(7.5), Some(500.0)];
+const LENS: [Option<f64>; 4] = [None, Some(7.5), Some(500.0), Some(0.0)];
 
 #[derive(Clone, Debug, PartialEq)]
 pub enum Op {
@@ -181,7 +181,7 @@ struct Model {
 
 pub fn ops(tier: Tier) -> Vec<Op> {
     let n = pool().len() as u8;
-    let nl = 3u8;
+    let nl = LENS.len() as u8;
     let mut v = Vec::new();
     for i in 0..n {
         for l in 0..nl {
@@ -284,7 +284,7 @@ pub fn run(tier: Tier) -> i32 {
     let ops = ops(tier);
     let mut bounds = Vec::new();
     let mut capped = None;
-    let modes: &[GameMode] = tier.pick(&[GameMode::Osu], &[GameMode::Osu, GameMode::Mania]);
+    let modes: &[GameMode] = &[GameMode::Osu, GameMode::Mania];
     for &mode in modes {
         let model = Model {
             pool: std::sync::Arc::new(pool()),
@@ -292,7 +292,7 @@ pub fn run(tier: Tier) -> i32 {
             mode,
         };
         let mut a = Acc::new();
-        let depths: &[u16] = tier.pick(&[5], &[6, 7]);
+        let depths: &[u16] = if mode == GameMode::Osu { tier.pick(&[5], &[6, 7]) } else { tier.pick(&[4], &[6]) };
         let res = e2::run("C18", model, depths, tier.pick(20_000_000, 150_000_000), &mut a);
         // attach the mode to history replays
         for list in a.viols.values_mut() {
